@@ -3824,8 +3824,9 @@ func (t *VariableSizedType) IsEquatable() bool {
 	return t.Type.IsEquatable()
 }
 
-func (t *VariableSizedType) IsComparable() bool {
-	return t.Type.IsComparable()
+func (*VariableSizedType) IsComparable() bool {
+	// Arrays have no run-time ordering (ArrayValue is not a ComparableValue)
+	return false
 }
 
 func (t *VariableSizedType) ContainFieldsOrElements() bool {
@@ -4033,8 +4034,9 @@ func (t *ConstantSizedType) IsEquatable() bool {
 	return t.Type.IsEquatable()
 }
 
-func (t *ConstantSizedType) IsComparable() bool {
-	return t.Type.IsComparable()
+func (*ConstantSizedType) IsComparable() bool {
+	// Arrays have no run-time ordering (ArrayValue is not a ComparableValue)
+	return false
 }
 
 func (t *ConstantSizedType) ContainFieldsOrElements() bool {
